@@ -373,7 +373,24 @@ EvAsg == IsEv /\ X.e = "asg" /\
 (* (x1, .., xn) := v where v delivers n values (a tuple expression or a call of a function that  *)
 (* returns several values): all values exist before the first variable changes, so             *)
 (* (a, b) := (b, a) exchanges a and b                                                          *)
-EvCollect == IsEv /\ X.e = "collect" /\
+(* A generator as the source ([body for x in g | cond], srck = "gen"): the form is the loop               *)
+(* `for x in g | cond repeat <add body to the result>` below a frame that gathers the elements, so the   *)
+(* generator advances one step at a time, interleaved with cond and body, exactly as in a for loop.       *)
+CollFromGen == "srck" \in DOMAIN X /\ X.srck = "gen"
+EvCollectGen == IsEv /\ X.e = "collect" /\ CollFromGen /\
+  Go([st EXCEPT !.c = Ev([e |-> "forin", x |-> X.x, src |-> X.src, filt |-> X.cond,
+                          body |-> [e |-> "collitem", v |-> X.body]]),
+                !.k = Push(st.k, [f |-> "collg", acc |-> <<>>, env |-> st.e])])
+EvCollItem == IsEv /\ X.e = "collitem" /\
+  Go([st EXCEPT !.c = Ev(X.v), !.k = Push(st.k, [f |-> "collitemk"])])
+RetCollItemK == IsVal /\ HasF /\ F.f = "collitemk" /\
+  Go(LET k1 == Pop(st.k)
+         js == {j \in 1..Len(k1) : k1[j].f = "collg"}
+         j  == CHOOSE i \in js : \A i2 \in js : i2 <= i       \* the innermost gathering frame
+     IN [st EXCEPT !.c = Val(VUnit), !.k = [k1 EXCEPT ![j].acc = Append(@, st.c.v)]])
+RetCollG == IsVal /\ HasF /\ F.f = "collg" /\
+  Go(LET m == MkList(st.s, F.acc) IN [st EXCEPT !.s = m.s, !.c = Val(m.v), !.e = F.env, !.k = Pop(st.k)])
+EvCollect == IsEv /\ X.e = "collect" /\ ~CollFromGen /\
   GoAny(StartArgs([w |-> "collect", x |-> X.x, cond |-> X.cond, body |-> X.body, range |-> X.src.e = "range"],
                   IF X.src.e = "range" THEN <<X.src.lo, X.src.hi>> ELSE <<X.src>>))
 RetCollNext == IsVal /\ HasF /\ F.f = "coll" /\ F.phase = "next" /\
@@ -624,7 +641,7 @@ Init == /\ pid \in 1..Len(Progs)
 Step == \/ EvLit \/ EvBool \/ EvStr \/ EvUnit \/ EvVar \/ EvMac \/ EvPrim \/ EvCall \/ EvCallV \/ EvPrint
         \/ EvList \/ EvCons \/ EvListOp \/ EvNewArr \/ EvARef \/ EvASet \/ EvALen \/ EvMkRec \/ EvRGet \/ EvRSet
         \/ EvMkUn \/ EvUIs \/ EvUGet \/ EvDCall \/ EvThrow \/ EvIf \/ EvAnd \/ EvOr \/ EvSeq \/ EvAsg \/ EvLet \/ EvLam \/ EvGen
-        \/ EvWhile \/ EvFor \/ EvForIn \/ EvBreak \/ EvIter \/ EvRet \/ EvYield \/ EvTry \/ EvError \/ EvAssert \/ RetAssert \/ EvTuple \/ EvMAsg \/ RetMAsg \/ EvCollect \/ RetCollNext \/ RetCollCond \/ RetCollBody \/ EvACall \/ EvPerRep \/ EvWhere \/ EvPFor \/ RetPForStep
+        \/ EvWhile \/ EvFor \/ EvForIn \/ EvBreak \/ EvIter \/ EvRet \/ EvYield \/ EvTry \/ EvError \/ EvAssert \/ RetAssert \/ EvTuple \/ EvMAsg \/ RetMAsg \/ EvCollect \/ EvCollectGen \/ EvCollItem \/ RetCollItemK \/ RetCollG \/ RetCollNext \/ RetCollCond \/ RetCollBody \/ EvACall \/ EvPerRep \/ EvWhere \/ EvPFor \/ RetPForStep
         \/ RetArgsNext \/ RetArgsApply \/ RetIf \/ RetAnd \/ RetOr \/ RetSeq \/ RetExitTaken \/ RetExitNot
         \/ RetAsg \/ RetLet \/ RetWhileCond \/ RetWhileBody \/ RetForStep \/ RetForInList \/ RetForInGen
         \/ RetGenEnd \/ RetYieldK \/ YieldUnwind \/ YieldDeliver \/ RetCall \/ RetRetK \/ RetUnwind \/ RetArrive
